@@ -211,6 +211,12 @@ func c12Run(c *h.Ctx) {
 			dg := make([]byte, 32)
 			br.Read(dg)
 			k := br.Intn(len(cs.Name))
+			if cs.Payload != nil && br.Intn(3) == 0 {
+				// the earlier Interest's final name re-used as it is: the stale digest is the last
+				// component and the API puts the new Interest's own digest in its place
+				k = len(cs.Name)
+				c.Count("interests_reissued_under_a_final_name", 1)
+			}
 			nn := append(enc.Name{}, cs.Name[:k]...)
 			nn = append(nn, enc.Component{Typ: enc.TypeParametersSha256DigestComponent, Val: dg})
 			nn = append(nn, cs.Name[k:]...)
